@@ -77,7 +77,8 @@ def check_slices(ctx: Ctx) -> None:
     ctx.extra["slice_alphabet_size"] = n_checked
 
 
-def run_history(scen: dict, case: dict, storage: str, pool: str | None = None, progress: bool = False) -> dict:
+def run_history(scen: dict, case: dict, storage: str, pool: str | None = None, progress: bool = False,
+                after=None) -> dict:
     """pool: None = sequential; "thread" / "process" = every run of the history goes through a real pool of that kind
     (calls are then ordered by the append-only cross-process log file)."""
     pdesc = pmap.tla_desc_to_py(scen["desc"])
@@ -114,6 +115,8 @@ def run_history(scen: dict, case: dict, storage: str, pool: str | None = None, p
             else:
                 e, _ = pmap.do_map(pl, pdesc, inp, run_folder=folder, storage=storage, **par, cleanup=False)
                 evs += e
+        if after is not None:          # e.g. C04: reload what the history left in the folder, before it is removed
+            evs += after(folder, pl)
     finally:
         if ex is not None:
             ex.shutdown(wait=True)
